@@ -17,12 +17,15 @@ import (
 func init() { Registry["C19"] = runC19 }
 
 type c19Case struct {
-	Kind    string   `json:"kind"` // strict-vs-relaxed | wrapper
-	Doc     string   `json:"doc"`
-	Wrapped string   `json:"wrapped,omitempty"`
-	DLine   int      `json:"dline,omitempty"`
-	DCol    int      `json:"dcol,omitempty"`
-	Shape   []string `json:"shape,omitempty"`
+	Second     string   `json:"second,omitempty"` // a second bare rule list put under a sibling key of the outermost level
+	SecondLine int      `json:"second_line,omitempty"`
+	SecondCol  int      `json:"second_col,omitempty"`
+	Kind       string   `json:"kind"` // strict-vs-relaxed | wrapper
+	Doc        string   `json:"doc"`
+	Wrapped    string   `json:"wrapped,omitempty"`
+	DLine      int      `json:"dline,omitempty"`
+	DCol       int      `json:"dcol,omitempty"`
+	Shape      []string `json:"shape,omitempty"`
 }
 
 type flatRule struct {
@@ -32,15 +35,22 @@ type flatRule struct {
 	Pos              []string // "field=value@positions"
 }
 
-func posString(p diags.PositionRanges, dl, dc int) string {
+// posString renders positions displaced by (dl, dc). A unit on an empty source line (the line break of a blank line
+// inside a multi-line scalar) sits at column 1 whatever the indentation of the surrounding text, so it is not displaced.
+func posString(p diags.PositionRanges, dl, dc int, srcLines []string) string {
 	var b strings.Builder
 	for _, r := range p {
+		if r.Line >= 1 && r.Line <= len(srcLines) && srcLines[r.Line-1] == "" {
+			fmt.Fprintf(&b, "(%d:blank)", r.Line+dl)
+			continue
+		}
 		fmt.Fprintf(&b, "(%d:%d-%d)", r.Line+dl, r.FirstColumn+dc, r.LastColumn+dc)
 	}
 	return b.String()
 }
 
-func flatten(f parser.File, dl, dc int) []flatRule {
+func flatten(f parser.File, dl, dc int, src string) []flatRule {
+	srcLines := strings.Split(src, "\n")
 	var out []flatRule
 	for _, g := range f.Groups {
 		for _, r := range g.Rules {
@@ -50,7 +60,7 @@ func flatten(f parser.File, dl, dc int) []flatRule {
 			}
 			add := func(field string, n *parser.YamlNode) {
 				if n != nil {
-					fr.Pos = append(fr.Pos, fmt.Sprintf("%s=%q@%s", field, n.Value, posString(n.Pos, dl, dc)))
+					fr.Pos = append(fr.Pos, fmt.Sprintf("%s=%q@%s", field, n.Value, posString(n.Pos, dl, dc, srcLines)))
 				}
 			}
 			addMap := func(field string, m *parser.YamlMap) {
@@ -186,11 +196,25 @@ func c19Wrap(r *rand.Rand, text string, levels int, allowSeq bool) (string, int,
 		}
 		lines = out
 	}
-	// extra documents before / after
-	if r.Intn(4) == 0 {
-		lines = append([]string{"other: document", "---"}, lines...)
-		dl += 2
-		shape = append(shape, "doc-before")
+	// extra documents before / after (also empty, comment-only and null documents)
+	if r.Intn(3) == 0 {
+		var pre []string
+		switch r.Intn(4) {
+		case 0:
+			pre = []string{"other: document", "---"}
+			shape = append(shape, "doc-before")
+		case 1:
+			pre = []string{"---", "---"}
+			shape = append(shape, "empty-doc-before")
+		case 2:
+			pre = []string{"---", "# Source: chart/templates/rules.yaml", "---"}
+			shape = append(shape, "comment-doc-before")
+		case 3:
+			pre = []string{"~", "---"}
+			shape = append(shape, "null-doc-before")
+		}
+		lines = append(pre, lines...)
+		dl += len(pre)
 	}
 	if r.Intn(4) == 0 {
 		lines = append(lines, "---", "trailing: document")
@@ -216,7 +240,7 @@ func c19Check(cs c19Case) (viol *core.Violation, nontrivial bool, key string) {
 				return nil, false, ""
 			}
 		}
-		a, b := flatten(fs, 0, 0), flatten(fr, 0, 0)
+		a, b := flatten(fs, 0, 0, cs.Doc), flatten(fr, 0, 0, cs.Doc)
 		for _, r := range a {
 			if r.Err != "" {
 				return nil, false, ""
@@ -233,9 +257,16 @@ func c19Check(cs c19Case) (viol *core.Violation, nontrivial bool, key string) {
 		if p1 != "" || p2 != "" {
 			return &core.Violation{Sig: "parser-panic", What: "parser panicked: " + p1 + p2, Case: cs, Files: files}, false, ""
 		}
-		a, b := flatten(f0, cs.DLine, cs.DCol), flatten(fw, 0, 0)
+		a, b := flatten(f0, cs.DLine, cs.DCol, cs.Doc), flatten(fw, 0, 0, cs.Wrapped)
 		if len(a) == 0 {
 			return nil, false, ""
+		}
+		if cs.Second != "" {
+			f2, p3 := c19Parse(cs.Second, false)
+			if p3 != "" {
+				return &core.Violation{Sig: "parser-panic", What: "parser panicked: " + p3, Case: cs, Files: files}, false, ""
+			}
+			a = append(a, flatten(f2, cs.SecondLine, cs.SecondCol, cs.Second)...)
 		}
 		if d := diffFlat(a, b); d != "" {
 			hasSeq := false
@@ -278,8 +309,10 @@ func runC19(c *core.Ctx) int {
 	core.Parallel(n, 16, func(i int) {
 		r := c.Rand("c19", i)
 		o := gen.DefaultGenOpts()
-		o.BlankInside = r.Intn(3) == 0
-		o.IndentInd = r.Intn(4) == 0
+		// blank lines inside folded scalars, explicit indentation indicators and escape sequences have position
+		// defects of their own (C06 known findings) that change with indentation; they are left to C06
+		o.BlankInside = false
+		o.IndentInd = false
 		o.CRLF = false
 		var cs c19Case
 		if i%2 == 0 {
@@ -297,6 +330,38 @@ func runC19(c *core.Ctx) int {
 			levels := r.Intn(5)
 			w, dl, dc, shape := c19Wrap(r, text, levels, true)
 			cs = c19Case{Kind: "wrapper", Doc: text, Wrapped: w, DLine: dl, DCol: dc, Shape: shape}
+			// a second rule list under a sibling key at the end of the (single-document) wrapped file
+			if r.Intn(4) == 0 && !strings.Contains(strings.Join(shape, ","), "doc-after") && (levels >= 1 || !d.BareRules) {
+				d2 := gen.RandDoc(r, o)
+				d2.NoFinalNL, d2.Header, d2.BareRules = false, nil, true
+				for gi := range d2.Groups {
+					for ri := range d2.Groups[gi].Rules {
+						for fi := range d2.Groups[gi].Rules[ri].Fields {
+							f := &d2.Groups[gi].Rules[ri].Fields[fi]
+							if (f.Key == "alert" || f.Key == "record") && f.Val != nil {
+								f.Val.Lines[0] = "second_" + f.Val.Lines[0]
+								f.Val.Style = gen.Double
+							}
+						}
+					}
+				}
+				t2 := d2.Render().Text
+				ind2 := 1 + r.Intn(3)
+				wl := strings.Split(strings.TrimSuffix(w, "\n"), "\n")
+				cs.SecondLine = len(wl) + 1
+				cs.SecondCol = ind2
+				wl = append(wl, "more_rules:")
+				for _, l := range strings.Split(strings.TrimSuffix(t2, "\n"), "\n") {
+					if l == "" {
+						wl = append(wl, "")
+					} else {
+						wl = append(wl, strings.Repeat(" ", ind2)+l)
+					}
+				}
+				cs.Wrapped = strings.Join(wl, "\n") + "\n"
+				cs.Second = t2
+				cs.Shape = append(cs.Shape, "second-list")
+			}
 		}
 		v, nt, key := c19Check(cs)
 		run.Eval(1)
